@@ -1452,6 +1452,8 @@ class Interp:
                 return mk_bool(x.isnone)
             if isinstance(x, SAtom):
                 return x == None if None in x.domain else False  # noqa: E711
+            if isinstance(x, V.SIntOrNone):
+                return x == None  # noqa: E711  (an Optional[int] whose None a protocol models by an integer code)
             return x is None
         if isinstance(a, (bool, SBool)) and isinstance(b, (bool, SBool)):
             return self.equals(st, a, b)
